@@ -21,7 +21,7 @@ from sim.wiretap import Reader
 
 PROPERTY = "C20"
 LEVEL = "exploration"
-BUDGET = {"quick": {"runs": 700, "wall": 55}, "thorough": {"runs": 30000, "wall": 570}}
+BUDGET = {"quick": {"runs": 1800, "wall": 55}, "thorough": {"runs": 30000, "wall": 570}}
 WINDOWS = (32768, 32769, 32777, 39999, 40000, 40001, 65536, 100000, 1 << 21, 1 << 31, (1 << 32) - 1)
 PACKETS = (4096, 4097, 32768, 65536, (1 << 32) - 1)
 RULE = ("Each run: direction, window from %r and max packet from %r (requested by the receiver's side), N up to 4x window "
@@ -41,6 +41,11 @@ def sim_kw(seed):
         # state, i.e. inside statements such as `self.in_window_sofar += n`
         import paramiko.channel as ch_mod
         kw.update(trace_files={ch_mod.__file__}, trace_opcodes=True)
+        if seed % 2 == 0:
+            # only inside the functions that keep the window accounts: the few pre-emptions a run may spend all go
+            # to places where a lost update would cost window
+            kw["trace_funcs"] = {"_check_add_window", "_window_adjust", "_wait_for_send_window", "_feed_extended",
+                                 "recv", "recv_stderr", "_send"}
     return kw
 
 
@@ -49,6 +54,9 @@ def scenario(sim):
     if sim.trace_opcodes:
         sim.p_preempt_store = (0.002, 0.01, 0.05)[sim.choose(3)]
         sim.max_preempt = (2, 4, 8)[sim.choose(3)]
+        if sim.trace_funcs:
+            sim.p_preempt_store = (0.05, 0.2)[sim.choose(2)]
+            sim.max_preempt = (8, 30)[sim.choose(2)]
     lat = (0.0, 0.005, 0.1)[sim.choose(3)]
     W = WINDOWS[sim.choose(len(WINDOWS))]
     P = PACKETS[sim.choose(len(PACKETS))]
